@@ -39,6 +39,16 @@ func columnAffinity(typ string) affinity {
 func defaultWithAffinity(typ string, def interface{}) interface{} {
 	aff := columnAffinity(typ)
 	switch v := def.(type) {
+	case bool:
+		// TRUE and FALSE are the integers 1 and 0, whatever the affinity
+		n := int64(0)
+		if v {
+			n = 1
+		}
+		if aff == affReal {
+			return float64(n)
+		}
+		return n
 	case int64:
 		switch aff {
 		case affText:
